@@ -856,6 +856,65 @@ example (thr atol rtol : ℝ) : (2 : ℝ) ≤ 10 / 3 ∧ (10 / 3 : ℝ) ≤ 4 :=
 
 end witness3
 
+/-! ### VEGAMAG (repaired code: both integrals on the caller's wavelengths when given) -/
+
+/-- `effstim('vegamag', wavelengths, vegaspec)`: 2.5 log₁₀ of the unsigned trapezoid integral of Vega × bandpass over
+that of the observation, both on `wavelengths` when given and on each product's own sampling set otherwise -/
+theorem effstim_vegamag_def (E : Env K) (thr atol rtol : K) (o : Obs K) (wl : Option (List K)) (area : Option K)
+    (vm bm : Tree K) (x xv : List K) (num den : K) (hbm : o.band.model = .ok bm)
+    (hx : wavelengthsOr thr o.model wl = .ok x) (hnum : integrateTrapz E o.model x = .ok num)
+    (hxv : wavelengthsOr thr (.bin .mul vm bm) wl = .ok xv) (hden : integrateTrapz E (.bin .mul vm bm) xv = .ok den)
+    (hn : 0 < num) (hd : 0 < den) :
+    effstim E thr atol rtol o .vegamag wl area (some vm) = .ok ((5/2) * (E.T.log10 den - E.T.log10 num)) := by
+  simp only [effstim, hbm, hx, hnum, hxv, hden, validateTotalflux, if_neg (not_le.mpr hn), if_neg (not_le.mpr hd),
+    bind, Except.bind, pure, Except.pure]
+
+/-- Vega itself observed through the bandpass has VEGAMAG 0, on its own sampling set and on any wavelengths given -/
+theorem effstim_vegamag_of_vega (E : Env K) (thr atol rtol : K) (o : Obs K) (wl : Option (List K)) (area : Option K)
+    (vm bm : Tree K) (x : List K) (num : K) (hmodel : o.model = .bin .mul vm bm) (hbm : o.band.model = .ok bm)
+    (hx : wavelengthsOr thr o.model wl = .ok x) (hnum : integrateTrapz E o.model x = .ok num) (hn : 0 < num) :
+    effstim E thr atol rtol o .vegamag wl area (some vm) = .ok 0 := by
+  rw [effstim_vegamag_def E thr atol rtol o wl area vm bm x x num num hbm hx hnum (hmodel ▸ hx) (hmodel ▸ hnum) hn hn]
+  congr 1; ring
+
+section witness4
+open Witness
+
+theorem wIntegral (thr : ℝ) :
+    integrateTrapz wE (obs (.leaf (.constFlux 3 .flam))).model [4, 2] = .ok 18 := by
+  have hs : sampleTree wE (obs (.leaf (.constFlux 3 .flam))).model [4, 2] =
+      .ok (([4, 2] : List ℝ).zip [1, 1] |>.map fun p => 3 * p.1 / (wE.P.h * wE.P.c) * p.2) :=
+    sampleTree_constFlux_mul wE 3 .flam band (fun x => 3 * x / (wE.P.h * wE.P.c)) [4, 2] [1, 1] (fun x _ => rfl)
+      (band_samples_desc wE)
+  have hv : validateWavelengths ([4, 2] : List ℝ) = .ok () := by
+    have := band_grid_desc (K := ℝ) thr
+    simp only [wavelengthsOr, bind, Except.bind, pure, Except.pure] at this
+    cases h : validateWavelengths ([4, 2] : List ℝ) with
+    | error e => rw [h] at this; cases this
+    | ok u => cases u; rfl
+  simp only [integrateTrapz, hv, hs, bind, Except.bind, pure, Except.pure]
+  norm_num [wE, phys, trapzXY, trapz]
+
+example (thr atol rtol : ℝ) :
+    effstim wE thr atol rtol (obs (.leaf (.constFlux 3 .flam))) .vegamag (some [4, 2]) none
+      (some (.leaf (.constFlux 3 .flam))) = .ok 0 :=
+  effstim_vegamag_of_vega wE thr atol rtol _ (some [4, 2]) none _ band [4, 2] 18 rfl rfl
+    (by rw [show (obs (.leaf (.constFlux 3 .flam)) : Obs ℝ).model = .bin .mul (.leaf (.constFlux 3 .flam)) band from rfl]
+        exact (wavelengthsOr_congr _ (sampleset_constFlux_mul thr 3 .flam band)).trans (band_grid_desc thr))
+    (wIntegral thr) (by norm_num)
+
+example (thr atol rtol : ℝ) :
+    effstim wE thr atol rtol (obs (.leaf (.constFlux 3 .flam))) .vegamag (some [4, 2]) none
+      (some (.leaf (.constFlux 3 .flam))) = .ok ((5/2) * (wE.T.log10 18 - wE.T.log10 18)) :=
+  effstim_vegamag_def wE thr atol rtol _ (some [4, 2]) none _ band [4, 2] [4, 2] 18 18 rfl
+    (by rw [show (obs (.leaf (.constFlux 3 .flam)) : Obs ℝ).model = .bin .mul (.leaf (.constFlux 3 .flam)) band from rfl]
+        exact (wavelengthsOr_congr _ (sampleset_constFlux_mul thr 3 .flam band)).trans (band_grid_desc thr))
+    (wIntegral thr)
+    ((wavelengthsOr_congr _ (sampleset_constFlux_mul thr 3 .flam band)).trans (band_grid_desc thr))
+    (wIntegral thr) (by norm_num) (by norm_num)
+
+end witness4
+
 end round2
 
 end Synphot.C09
